@@ -23,7 +23,8 @@ RULE = ('cases = monitored well-formed chart with logging probes, send (with del
         'eventless transitions) must fail exactly at the first meta-event whose step time has '
         'reached the due time, or never; (5) when the listener and the recording property chart '
         'are detached and replaced by fresh ones between two steps, the old ones hear nothing '
-        'more and the new ones every meta-event from then on; (4) never-final property '
+        'more and the new ones every meta-event from then on; (6) on a clock that advances at every '
+        'read, "step started", MacroStep.time and the property clock all show interpreter.time; (4) never-final property '
         'charts leave the run signature equal to the unmonitored run; in 40% of the cases the '
         'monitored chart runs with contracts on and carries state invariants / transition post-'
         'conditions and invariants that record sent(x)/received(x), and those records belong to '
@@ -63,7 +64,8 @@ def strategy(tier):
                                       if draw(st.floats(0, 1)) < 0.4]}
         return {'spec': spec, 'ops': ops, 'ks': ks, 'order': order, 'sprobe': sprobe,
                 'deadline': deadline, 'swap': draw(st.floats(0, 0.999)),
-                'empty_event': draw(st.integers(0, 3)) == 0}
+                'empty_event': draw(st.integers(0, 3)) == 0,
+                'ticking': draw(st.integers(0, 2)) == 0}
     return cases()
 
 
@@ -138,14 +140,34 @@ def add_sprobes(spec, sprobe):
     return spec
 
 
+def tick_clock():
+    """a clock that advances by itself: every read of `time` is later than the one before"""
+    from sismic.clock import Clock
+
+    class TickClock(Clock):
+        def __init__(self):
+            self._t = 0.0
+            self._n = 0
+
+        @property
+        def time(self):
+            self._n += 1
+            return self._t + self._n * 2.0 ** -12
+
+        @time.setter
+        def time(self, v):
+            self._t = v - self._n * 2.0 ** -12
+    return TickClock()
+
+
 def run(spec, ops, monitor, k=None, order='recorder-first', contracts=False, deadline=None,
-        swap_at=None):
+        swap_at=None, clock=None):
     """monitor: None (unmonitored) | 'record' | 'final'.  Returns dict."""
     from sismic.interpreter import Interpreter
     from sismic.exceptions import PropertyStatechartError
     box = {}
     slog = []
-    d = Drive(spec, ignore_contract=not contracts,
+    d = Drive(spec, ignore_contract=not contracts, clock=clock,
               ctx_extra={'tick': lambda dt: box['d'].advance(dt), 'slog': slog})
     box['d'] = d
     heard, plog = [], []
@@ -206,7 +228,9 @@ def run(spec, ops, monitor, k=None, order='recorder-first', contracts=False, dea
             h0, p0, s0 = len(heard), len(plog), len(slog)
             rec = d.step(op[1])
             marks.append((h0, len(heard), p0, len(plog)))
+            rec['_time_after'] = d.interp.time
             sig.append({'result': rec['result'], 'exc': rec['exc'], 'config': rec['config_after'],
+                        'step_time': d.interp.time,
                         'log': [list(x) for x in rec['log']], 'v': rec['v_after'],
                         'T': rec['T'], 'sent_received_probes': [list(x) for x in slog[s0:]]})
             if rec['exc'] and rec['exc'] not in ('NonDeterminismError',
@@ -352,6 +376,25 @@ def oracle(case):
     for i, (h0, h1, p0, p1) in enumerate(ref['marks']):
         for j in range(p0, p1):
             step_of[j] = i
+    # (6) a clock that advances by itself (every read later than the one before): the time frozen
+    # at the call is what 'step started', MacroStep.time and the property clock show
+    if case.get('ticking'):
+        tk = run(spec, case['ops'], 'record', contracts=contracts, clock=tick_clock())
+        labels['runs on a self-advancing clock'] = 1
+        for i, step in enumerate(tk['sig']):
+            h0, h1, p0, p1 = tk['marks'][i]
+            T = step['step_time']
+            st_times = [d_.get('time') for n_, d_, _ in tk['heard'][h0:h1] if n_ == 'step started']
+            ptimes = sorted(set(t_ for n_, t_, d_ in tk['plog'][p0:p1]))
+            mtime = step['result']['time'] if step['result'] else T
+            if st_times != [T] or mtime != T or (ptimes and ptimes != [T]):
+                viol.append({'prop': PROP, 'kind': 'step-time-not-frozen', 'step': i,
+                             'detail': {'interpreter_time': T, 'step_started_time': st_times,
+                                        'macrostep_time': mtime,
+                                        'property_clock_values': ptimes[:4]}})
+                break
+        if viol:
+            return {'violations': viol, 'labels': labels, 'keys': keys}
     # (5) listeners replaced between two steps: the old ones hear nothing more, the new ones
     # everything from then on
     if case.get('swap') is not None and len(ref['marks']) >= 2:
